@@ -7,8 +7,8 @@ EXPLANATION = ("Static path rules over quinn-proto MIR: (a) every call of Connec
                "called only from Endpoint::accept past PacketKey::decrypt's Ok edge; reserved bits are checked before a connection is created; (c) the stateless "
                "reset flag requires len >= RESET_TOKEN_SIZE+5 and equality with the stored token over the last 16 bytes, maps to ConnectionError::Reset only when "
                "set, and the endpoint consults reset tokens only after all CID/tuple lookups missed; the active reset token follows the active remote CID; (d) Retry "
-               "and Version Negotiation acceptance guards dominate every state change of their arms, and every packet counts itself in total_authed_packets before "
-               "those guards; (e) a failed authentication writes only counters; (f) key-update acceptance guards; (g) server Initial token consistency. "
+               "and Version Negotiation acceptance guards (no packet counted yet, token present, integrity tag valid, client) dominate every state change of their arms "
+               "including the count of the accepted Retry itself; handle_packet counts every protected packet before processing and never an unprotected one; (e) a failed authentication writes only counters; (f) key-update acceptance guards; (g) server Initial token consistency; (h) a client discards every 0-RTT packet before header-protection removal. "
                "AEAD strength is a component boundary and NOT decided.")
 RULE = "rule instances = (rule, site) pairs over MIR call sites / branches / stores; non-trivial = bound to at least one real site"
 
@@ -18,7 +18,10 @@ def rule_a(ctx):
     hp = ctx.pfn('Connection::handle_packet')
     hfp = ctx.pfn('Connection::handle_first_packet')
     who_may_call(ctx, 'a', 'process_decrypted_packet_callers', ['Connection::process_decrypted_packet'], ['Connection::handle_packet', 'Connection::handle_first_packet'], floor=2)
-    who_may_call(ctx, 'a', 'on_packet_authenticated_callers', ['Connection::on_packet_authenticated'], ['Connection::handle_packet', 'Connection::handle_first_packet'], floor=2)
+    # process_decrypted_packet counts an ACCEPTED Retry itself (the packet has no packet protection: handle_packet must not
+    # count it before the integrity tag verified); that site's obligations are d/retry_* and d/accepted_retry_*
+    who_may_call(ctx, 'a', 'on_packet_authenticated_callers', ['Connection::on_packet_authenticated'],
+                 ['Connection::handle_packet', 'Connection::handle_first_packet', 'Connection::process_decrypted_packet'], floor=3)
     for b in (hp, hfp):
         sites = b.calls_to('Connection::process_decrypted_packet') + b.calls_to('Connection::on_packet_authenticated')
         # a packet without a packet number (Retry / Version Negotiation: decrypt_packet returned Ok(None)) has nothing to
@@ -164,6 +167,45 @@ def _bool_sources(F, body, op, bb, idx, neg=False, depth=0):
         else:
             out.append(('other', None, neg, df[1] if len(df) > 1 and isinstance(df[1], int) else bb))
     return out
+
+
+def reach_assuming(F, body, call_value, discr_values, avoid=(), avoid_edges=()):
+    """P11 path partition: blocks reachable from the entry of `body` when every branch whose outcome is decided by the
+    assumption only takes the consistent edge.  call_value(desc of a call result) -> True / False / None (unknown);
+    discr_values(desc of a matched value) -> set of possible discriminants / None.  A bool test is followed through
+    copies, `!` and literals (_bool_sources): of the alternatives reaching the switch only those defined in a block
+    that is itself still reachable under the assumption count (`let drop = a && b; if drop` decides like `if a && b`);
+    iterated to the fixpoint.  `avoid` / `avoid_edges` restrict the result, not the evaluation."""
+    d = describer(F, body)
+    brs = branches(F, body)
+    lit = {'0': False, 'false': False, '1': True, 'true': True}
+    cut = set()
+    while True:
+        reach = body.reachable_from(0, avoid_edges=cut)
+        new = set(cut)
+        for br in brs:
+            if br.bb not in reach:
+                continue
+            keep = None
+            if br.desc[0] == 'discr':
+                allowed = discr_values(br.desc[1])
+                if allowed is not None:
+                    keep = {br.target(v) for v in allowed}
+            else:
+                t = body.blocks[br.bb]['t']
+                vals = set()
+                for kind, x, neg, dbb in _bool_sources(F, body, t[1], br.bb, term_idx(body, br.bb)):
+                    if dbb not in reach:
+                        continue
+                    v = lit.get(str(x).lower()) if kind == 'const' else (call_value(d.call_desc(x, 0)) if kind == 'call' else None)
+                    vals.add(None if v is None else (v != neg))
+                if len(vals) == 1 and None not in vals:
+                    keep = {br.target(1 if vals.pop() else 0)}
+            if keep is not None:
+                new |= {(br.bb, x) for _, x in br.edges if x not in keep}
+        if new == cut:
+            return body.reachable_from(0, avoid=avoid, avoid_edges=cut | set(avoid_edges))
+        cut = new
 
 
 def _verdict_of_site(F, body, br, c):
@@ -420,8 +462,28 @@ def rule_d(ctx):
     # the update_initial_cid call of the Retry arm: the one whose block is dominated by the is_valid_retry call
     prot += [c.bb for c in upd if any(pdp.dominates(v.bb, c.bb) for v in valid)]
     prot += [c.bb for c in pdp.calls_to('StreamsState::retransmit_all_for_0rtt')]
-    guard_protects(ctx, 'd', 'retry_only_before_other_server_packets', pdp, lambda o, a, b: o == 'Lt' and D.has_const(a, 1) and D.has_field(b, 'total_authed_packets'), prot, what='total_authed_packets > 1', need_dom=False)
+    # counting the Retry as an authenticated packet (counter, idle timer, keep-alive) is a state change like the others:
+    # EVERY on_packet_authenticated site of process_decrypted_packet must lie behind the gate, the token-length test, the
+    # integrity tag and the client test — "no count of an unprotected packet before it was validated"
+    cnt = pdp.calls_to('Connection::on_packet_authenticated')
+    ctx.floor('d', 'accepted_retry_count_sites', len(cnt), 1)
+    prot += [c.bb for c in cnt]
+    # the gate constant agrees with the counting site: the packet at hand is NOT yet counted when the gate is evaluated
+    # (handle_packet does not count unprotected packets: d/every_processed_packet_is_counted_unprotected_not_counted_before_validation;
+    # the count sites of this function lie behind the gate), so "no other packet of the server was accepted" reads
+    # total_authed_packets == 0, and the violating relation is `0 < n` (`1 <= n`, `n != 0`)
+    guard_protects(ctx, 'd', 'retry_only_before_other_server_packets', pdp, _some_packet_counted, prot, what='total_authed_packets > 0', need_dom=False)
     guard_protects(ctx, 'd', 'retry_needs_token', pdp, lambda o, a, b: o == 'Le' and D.has_const(b, 16) and 'len' in D.render(a), prot, what='payload.len() <= 16', need_dom=False)
+    # an accepted Retry counts itself, so that a second Retry (or a Version Negotiation) after it meets a closed gate
+    # ("restarts the handshake once"): every Retry state change is dominated by, or always followed by, a counting site
+    for w in st:
+        okc = any(pdp.dominates(c.bb, w.bb) for c in cnt) or (bool(cnt) and path_avoiding(pdp, pdp.succ[w.bb], pdp.return_blocks(), {c.bb for c in cnt}) is None)
+        ctx.check(okc, 'd', 'accepted_retry_counts_itself', pdp, w.where(), 'on_packet_authenticated on every path that follows the Retry',
+                  'a Retry can be followed (retry_src_cid recorded) without being counted in total_authed_packets: a second Retry / a Version Negotiation after it would still pass the `total_authed_packets > 0` gates')
+    for c in cnt:
+        num = arg_desc(F, c, 4)
+        ctx.check(num[0] == 'agg' and num[2].endswith('Option::None'), 'd', 'accepted_retry_records_no_packet_number', pdp, c.where(), 'packet number argument is None',
+                  'the Retry arm hands on_packet_authenticated a packet number (%s): a Retry has none, and a number recorded here was never checked against Dedup' % D.render(num)[:80])
     for c in valid:
         ok, found = True, False
         for br in branches(F, pdp):
@@ -438,18 +500,29 @@ def rule_d(ctx):
     # Version negotiation
     vm = [c for c in constructions(F, 'ConnectionError', 'VersionMismatch', crate='quinn_proto') if F.root_of(c.body).id == pdp.id]
     ctx.floor('d', 'version_mismatch_sites', len(vm), 1)
-    guard_protects(ctx, 'd', 'vn_only_before_other_server_packets', pdp, lambda o, a, b: o == 'Lt' and D.has_const(a, 1) and D.has_field(b, 'total_authed_packets'), [c.bb for c in vm], what='total_authed_packets > 1', need_dom=False)
+    guard_protects(ctx, 'd', 'vn_only_before_other_server_packets', pdp, _some_packet_counted, [c.bb for c in vm], what='total_authed_packets > 0', need_dom=False)
     sup = [br for br in branches(F, pdp, stop_named=True) if peel_not(br.desc)[0][0] == 'local' and peel_not(br.desc)[0][2] == 'supported']
     ok = bool(sup) and all(all(c.bb not in pdp.reachable_from(br.target(1)) for c in vm) for br in sup)
     ctx.check(ok, 'd', 'vn_ignored_when_own_version_listed', pdp, pdp.where(), 'supported == true edge never reaches VersionMismatch', 'a Version Negotiation listing our version can end the connection')
-    # every packet (numbered or not) counts itself before those guards: total_authed_packets += 1 is unconditional at the top of on_packet_authenticated
+    # every call of on_packet_authenticated (numbered packet or accepted Retry) counts: total_authed_packets += 1 is unconditional at its top
     opa = ctx.pfn('Connection::on_packet_authenticated')
     inc = [(w, v) for w, v in store_values(ctx, 'Connection', 'total_authed_packets', in_fn=opa)]
     ok = bool(inc) and all(v[0] == 'bin' and v[1] == 'Add' and D.has_const(v, 1) for w, v in inc)
     ok = ok and all(path_avoiding(opa, [0], opa.return_blocks(), {w.bb}) is None for w, v in inc)
     ctx.check(ok, 'd', 'every_authenticated_packet_counts_itself', opa, opa.where(), 'total_authed_packets += 1 on every path (before the `packet?` early return)',
-              'on_packet_authenticated no longer counts unnumbered packets (VN/Retry): the `total_authed_packets > 1` gates then open one packet late')
+              'on_packet_authenticated no longer counts unnumbered packets (an accepted Retry): the `total_authed_packets > 0` gates then stay open after it')
     who_may_write(ctx, 'd', 'total_authed_packets_writers', 'Connection', 'total_authed_packets', ['Connection::on_packet_authenticated', 'Connection::new'], floor=1)
+
+
+def _int_is(x, n):
+    return x[0] == 'const' and x[1] == 'int' and str(x[2]).split('_')[0] == str(n)
+
+
+def _some_packet_counted(o, a, b):
+    """the relation says that a packet was counted before the one at hand (which is not counted yet when the Retry /
+    Version Negotiation gates are evaluated): self.total_authed_packets exceeds 0 — `0 < n`, `1 <= n` or `n != 0`"""
+    n = lambda x: x[0] == 'field' and x[2] == 'total_authed_packets' and x[1][0] == 'param' and x[1][1] == 1
+    return (o == 'Lt' and _int_is(a, 0) and n(b)) or (o == 'Le' and _int_is(a, 1) and n(b)) or (o == 'Ne' and ((_int_is(a, 0) and n(b)) or (_int_is(b, 0) and n(a))))
 
 
 def _is_mut_conn_ty(ty):
@@ -465,7 +538,7 @@ def _conn_place_field(place):
     return fs[0] if fs else None
 
 
-_DW = {}
+_DW = __import__('engine.facts', fromlist=['register_memo']).register_memo({})
 
 
 def _direct_conn_writes(F, fn):
@@ -611,6 +684,67 @@ def _unacked_test(F, d):
     return None
 
 
+def _is_client_test(F, d):
+    """d (a bool or discriminant descriptor, negations peeled) decides the side of THIS connection (self.side): returns
+    ('bool', value_when_client) for is_client()/is_server() on self.side (directly or through ConnectionSide::side()),
+    ('discr', discriminant of ConnectionSide::Client) for a match on self.side itself, else None"""
+    def own_side(x):
+        while x[0] == 'call' and x[1] in ('ConnectionSide::side', 'Connection::side') and len(x[3]) == 1:
+            x = x[3][0]
+        return (x[0] == 'field' and x[2] == 'side' and x[1][0] == 'param' and x[1][1] == 1) or (x[0] == 'param' and x[1] == 1)
+    if d[0] == 'call' and len(d[3]) == 1 and own_side(d[3][0]):
+        if d[1] in ('ConnectionSide::is_client', 'Side::is_client'):
+            return ('bool', True)
+        if d[1] in ('ConnectionSide::is_server', 'Side::is_server'):
+            return ('bool', False)
+    if d[0] == 'discr' and d[1][0] == 'field' and d[1][2] == 'side' and d[1][1][0] == 'param' and d[1][1][1] == 1:
+        vs = [v for v in F.adt('connection::ConnectionSide')['variants'] if v['name'] == 'Client']
+        if len(vs) == 1:
+            return ('discr', int(vs[0]['discr']))
+    return None
+
+
+def _reach_assuming_client_0rtt(F, body, partial):
+    """blocks reachable from the entry of `body` for a packet whose partially decoded header `partial` is of type 0-RTT,
+    received by a client: branch edges contradicted by `PartialDecode::is_0rtt(partial) == true` or by
+    `self.side is Client` are removed (P11 path partition)"""
+    def call_value(x):
+        if x[0] == 'call' and x[1] == 'PartialDecode::is_0rtt' and len(x[3]) == 1 and x[3][0] == partial:
+            return True
+        t = _is_client_test(F, x)
+        return t[1] if t is not None and t[0] == 'bool' else None
+
+    def discr_values(x):
+        t = _is_client_test(F, ('discr', x))
+        return {t[1]} if t is not None and t[0] == 'discr' else None
+    return reach_assuming(F, body, call_value, discr_values)
+
+
+def rule_h(ctx):
+    """0-RTT packets travel from client to server only, and the 0-RTT keys protect that direction only: a client still
+    holds them (it SENDS with them) until the 1-RTT keys arrive, so a 0-RTT packet reflected to the client — its own —
+    would decrypt.  "State changes only in response to packets protected with the keys negotiated for that connection"
+    therefore needs the client to discard every packet of type 0-RTT before anything is done with it: header-protection
+    removal (packet_crypto::unprotect_header picks zero_rtt_crypto for the type alone) and handle_packet (dedup, counters,
+    timers, frames) are unreachable for `partial_decode.is_0rtt()` on a client."""
+    F = ctx.facts
+    n = 0
+    for c in F.callers_of('packet_crypto::unprotect_header', crate='quinn_proto'):
+        if is_noise(c):
+            continue
+        b = c.body
+        partial = arg_desc(F, c, 0)
+        reach = _reach_assuming_client_0rtt(F, b, partial)
+        sites = [c] + [x for x in b.calls_to('Connection::handle_packet')]
+        n += 1
+        bad = [x for x in sites if x.bb in reach]
+        ctx.check(not bad, 'h', 'client_discards_0rtt_before_processing', F.root_of(b), c.where(),
+                  'unprotect_header / handle_packet unreachable for a 0-RTT packet on a client (%d of %d blocks reachable under that assumption)' % (len(reach), len(b.live_blocks())),
+                  'a client can process a packet of type 0-RTT (its own 0-RTT keys would open a reflected copy of what it sent): %s reachable although the packet is 0-RTT and this side is the client'
+                  % sorted({short(x.f) for x in bad}))
+    ctx.floor('h', 'header_unprotection_sites', n, 1)
+
+
 def rule_g(ctx):
     F = ctx.facts
     hp = ctx.pfn('Connection::handle_packet')
@@ -639,4 +773,5 @@ def run(ctx):
     rule_e(ctx)
     rule_f(ctx)
     rule_g(ctx)
+    rule_h(ctx)
     ctx.assume('crypto::PacketKey / HeaderKey / Session implementations are a component boundary (forgery resistance of the AEAD is not analysed)')
